@@ -4,6 +4,8 @@
     no panic, closed once, exactly-once results, termination; single assignment, waits agree,
     no call blocks for ever.  MapChunks.tla: the chunk arithmetic partitions every small input.
     As-found variants (non-atomic last-worker test; lock-free Wait) must be refuted.
+    PromiseSeq.tla: every method of a promise used from one goroutine as a function of the mailbox and the
+    three flags, all call sequences up to four; Recover/Break/mutable are specified beyond C19.
 (B) TLC-simulated Processor schedules forced on the real code through the hooks (child process,
     a worker panic kills it and is attributed to the schedule announced last).
 (C) Steered executions of a real Promise (goroutines held at the hooks, released in random
@@ -166,6 +168,40 @@ def run(ck, tier):
             vlib.log("  [note] %d Map/Lazily events differ from MapChunks.tla / Lazily.tla outside what C19 states: model drift "
                      "(first: %s)" % (len(v["drift"]), json.dumps(evs[v["drift"][0] - 1])[:300]))
         ck.samples.append({"source": "Map call", "event": evs[len(evs) // 4]})
+        # (C3) sequential promise laws for all eight flag combinations (PromiseSeq.tla)
+        r = vlib.tlc("Concurrent", "PromiseSeq", "PromiseSeqMC.cfg", workers=4, timeout=900)
+        vlib.tlc_expect_ok(r, "PromiseSeqMC")
+        ck.mc("PromiseSeqMC", r, "every sequence of <= 4 non-blocking calls (Fulfill, Fail, Recover, Break, Wait), all flags: immutable law, set stays set")
+        r = vlib.tlc("Concurrent", "PromiseSeq", "PromiseSeqNeg.cfg", workers=4, timeout=900)
+        if r.violated != "RefusedRecoverKeeps":
+            raise vlib.Infra("PromiseSeqNeg not refuted: %s" % r.violated)
+        ck.mc("PromiseSeqNeg (extension)", r, "as found, a refused Recover empties the promise: 'refused Recover changes nothing' is refuted")
+        sq = os.path.join(work, "pseq.ndjson")
+        vlib.harness(["conc", "promiseseq", "-n", 4000 if thorough else 400, "-seed", ck.seed, "-out", sq], timeout=3000)
+        v, r = vlib.validate("Concurrent", "PromiseSeqTrace", "PromiseSeqTrace.cfg", sq)
+        ck.mc("trace:promise-sequences", r, "%d call sequences on real promises, all flag combinations" % v["events"])
+        sevs = vlib.read_ndjson(sq)
+        ck.traces += len(sevs)
+        ck.evaluations += len(sevs)
+        for e in sevs:
+            nontriv.add(json.dumps([e["mutable"], e["recoverable"], e["relay"], [(o["op"], o["x"]) for o in e["ops"]]]))
+        for l, why in v["fails"]:
+            ck.violation("%s: %s" % (why, json.dumps(sevs[l - 1])), {"kind": "conc-event", "event": sevs[l - 1], "why": why})
+        ck.extra["promise_sequences_beyond_c19_drift"] = len(v["drift"])
+        if v["drift"]:
+            vlib.log("  [note] %d promise call sequences differ from PromiseSeq.tla outside what C19 states (Recover, Break, "
+                     "mutable promises, error texts): model drift (first: %s)" % (len(v["drift"]), json.dumps(sevs[v["drift"][0] - 1])[:400]))
+        if not ck.violations:
+            bad = next(json.loads(json.dumps(e)) for e in sevs
+                       if not e["mutable"] and e["ops"][-1]["op"] == "W" and not e["ops"][-1]["blocked"]
+                       and all(o["op"] in "FXW" for o in e["ops"]))
+            bad["ops"][-1]["v"] += 1
+            bp = os.path.join(work, "pseq-bad.ndjson")
+            vlib.write_ndjson(bp, [bad])
+            v2, _ = vlib.validate("Concurrent", "PromiseSeqTrace", "PromiseSeqTrace.cfg", bp)
+            if len(v2["fails"]) != 1:
+                raise vlib.Infra("binding self-test (promise sequences): corrupted Wait value accepted")
+            ck.parts.append({"part": "binding-selftest(promise sequences)", "note": "corrupted Wait value rejected"})
         ck.nontrivial = len(nontriv)
     finally:
         shutil.rmtree(work, ignore_errors=True)
